@@ -9,8 +9,9 @@ for n in $names; do
   git -C /repo diff --quiet || { echo "/repo not clean"; exit 9; }
   git -C /repo apply /verif/seeded/$n/patch.diff || { echo "$n APPLY-FAILED"; continue; }
   line="$n"
-  for c in $p $extra C01; do
-    [ "$c" = "C01" ] && [ "$p" = "C01" ] && continue
+  list="$p $extra"
+  [ "$p" != "C01" ] && list="$list C01"
+  for c in $list; do
     out=$(bin/check $c --tier quick 2>&1); rc=$?
     first=$(echo "$out" | grep -E "^VIOLATION" | head -1 | sed -E 's/.*obligation=//' | cut -c1-110)
     nv=$(echo "$out" | grep -c "^VIOLATION")
